@@ -14,7 +14,12 @@ RULE = ("fault enumeration over byte alterations of builder-written archives. On
         "rewritten to match (the other attribute must object); attribute entries zeroed + data byte altered. Archive layouts: the archive starts the file, or (every metadata kind, fewer configurations) sits behind 512..2048 bytes of foreign data so that every verifier has to add the archive offset (signatures of cases behind a prefix end in |archive-offset>0, except the known multi-sector findings, which do not depend on it). Signature functions: 200 (thorough 600) byte strings 0..200 KiB "
         "(lengths around the 64 KiB digest unit), signature area outside and inside the data, signed with generate_weak_signature, verified with both verify functions, all 512 "
         "signature bits and ~1000 data bits (targeted at unit / exclusion boundaries + random) flipped. distinct = distinct (archive configuration, kind, file shape, region, "
-        "corruption kind) classes with at least one altered offset executed (+ signature-string length classes).")
+        "corruption kind) classes with at least one altered offset executed (+ signature-string length classes). "
+        "Further axes (fewer configurations each): sectors compressed with bzip2 / LZMA / sparse and fix-key encryption under checksums and attributes; sector checksums without an "
+        "(attributes) file (generate_crcs(true), then AttributesOption::None); V4 digests over HET/BET tables compressed with table_compression(bzip2 | LZMA); signed archives followed "
+        "by a block that begins with NGIS + 256 bytes (the strong-signature arm of verify_signature), intact and with one signed byte altered; integrity metadata NOT written by "
+        "ArchiveBuilder: a file added through MutableArchive::add_file_data + flush, or everything added through SFileCreateArchive2 + SFileAddFileEx + SFileFlushArchive (V1/V2): every "
+        "file of the unmodified result must verify under every flag selection and the archive-wide verifier (C-API route: also on the handle that wrote it), the stored bytes of the added file are swept.")
 ASSUME = ["the region map (where to corrupt) comes from the library's own header/find_file answers and the builder's layout; it is checked to tile the archive and is never the oracle",
           "a caught panic or a process abort (allocation failure, panic inside extern \"C\") while handling a corrupted archive is tallied as crash_on_corruption / abort_on_corruption "
           "and is not a C10 violation: the corruption did not pass silently, totality is C05's clause; on the intact archive it is intact-fails",
@@ -27,7 +32,13 @@ ASSUME = ["the region map (where to corrupt) comes from the library's own header
           "an archive behind a prefix is the prefix-free build with foreign bytes put in front (all stored offsets are relative to the archive start); the prefix bytes themselves are not protected and are not altered",
           "SFileVerifyArchive(ALL_FILES) is driven as a verifier of its own (flag selection 'SFileVerifyArchive(ALL_FILES)') since its self-deadlock was repaired (79e1b4e); user files of every other "
           "unsigned configuration carry names that only look like special files ('(old) notes.txt', 'maps\\arena (copy)'); archives with attributes hold a zero-length file whose attributes must verify",
-          "a signed archive followed by foreign bytes in the same file (short tail, padding to a 4096 multiple) is the unmodified archive: it must verify"]
+          "a signed archive followed by foreign bytes in the same file (short tail, padding to a 4096 multiple) is the unmodified archive: it must verify",
+          "a block beginning with NGIS + 256 bytes behind the archive is, by the format, an attached strong signature nobody made: verify_signature may answer WeakValid (foreign bytes) or refuse in "
+          "the name of the strong signature (StrongInvalid / StrongNoKey); StrongValid, WeakInvalid, None or an error are violations; with one signed byte altered nothing may answer *Valid. No valid "
+          "strong signature can be produced (no private key): the accepting branch of the strong arm is not reachable from this check",
+          "modification legs stay on V1/V2 and add + flush; archives in which the grown block table would not fit into the slack before the appended data are skipped (C06's block-table finding); "
+          "files added by the modification path are single units without sector checksum: their protection is the CRC32/MD5 attribute, verifier SFileVerifyFile / SFileVerifyArchive",
+          "when the unmodified archive after a modification is refused only for files the modification did not touch, the sweep over the added file is still run with the per-file verifier"]
 
 
 def run(tier, seed, scratch, t0):
